@@ -580,7 +580,7 @@ class Tr:
                 return eff, f'(Some {t})'
             eff, t = self.E(a, env)
             return eff, f'(as_opt {t})'
-        if ty == 'vec':
+        if ty == 'asvec':            # an array argument that may be a one-element array read as its element
             eff, t = self.E(a, env)
             return eff, f'(as_vec {t})'
         if ty == 'list (option Q)' and not isinstance(a, (ast.List, ast.Tuple)):
@@ -2240,7 +2240,7 @@ def translate_laserpath(src_dir: str) -> str:
                    'linear': ('method', [('increment', 'list (option Q)'), ('mode', 'string'), ('shutter', 'Z'), ('speed', 'option Q')], 'unit')}
         CFG_ATTRS = {'x_init', 'y_init', 'z_init', 'speed', 'speed_pos', 'speed_closed', 'warp_flag'}
         STATE_ATTRS = {'_x': 'lb__x', '_y': 'lb__y', '_z': 'lb__z', '_f': 'lb__f', '_s': 'lb__s'}
-        ORACLES = {'add_path': ('lb_add_path', True, False, ['x', 'y', 'z', 'f', 's'], {}, ['vec', 'vec', 'vec', 'vec', 'vec']),
+        ORACLES = {'add_path': ('lb_add_path', True, False, ['x', 'y', 'z', 'f', 's'], {}, ['asvec', 'asvec', 'asvec', 'asvec', 'asvec']),
                    'num_subdivisions': ('lb_num_sub', True, True, ['l_curve', 'speed'])}
         CFG_TYPE, LOCAL_ELT, EXTRA_PARAMS, MONAD = 'lb_cfg', {}, '', 'ML'
         EXPR_HOOKS, STMT_SKIP, RECEIVERS, STMT_HOOKS = [_h_lb], [], {'self'}, [_s_lb]
